@@ -235,11 +235,12 @@ def build_source(lay, conv, delim, hdr, rnd):
     if delim:
         src['delimiter'] = delim
     if not hdr or rnd.random() < .5:
-        src['has_header'] = hdr
+        # (YAML flags are also written 0 / 1 by people and by tools that generate settings files)
+        src['has_header'] = hdr if rnd.random() < .75 else int(hdr)
     if conv == ',':
         src['decimal_separator'] = ','
     if lay.get('negate_setting'):
-        src['negate_amount'] = True
+        src['negate_amount'] = True if rnd.random() < .75 else 1
     return src
 
 
